@@ -292,6 +292,15 @@ func (w *docWorld) build(d dDoc) (*jsonapi.Document, *jsonapi.URL, []jsonapi.Res
 		doc.Data = ids
 	case "errors":
 		doc.Errors = testErrors(d.NErrors)
+		if len(prim) == 1 { // a handler that reports errors on a document it had started to fill
+			doc.Data = prim[0]
+		} else if len(prim) > 1 {
+			col := &jsonapi.Resources{}
+			for _, r := range prim {
+				col.Add(r)
+			}
+			doc.Data = col
+		}
 	}
 	doc.Included = mk(d.Included)
 	if mc := metaClasses[w.v.Meta%len(metaClasses)]; mc != "" {
@@ -801,6 +810,9 @@ func randDoc(rng *rand.Rand) dDoc {
 		}
 	case "errors":
 		d.NErrors = 1 + rng.Intn(3)
+		for i := rng.Intn(3); i > 0; i-- { // errors may come with data and included already set
+			d.Primary = append(d.Primary, randDocRes(rng, "t1", ids[i]))
+		}
 	}
 	if d.Kind == "ident" || d.Kind == "idents" {
 		d.Coll = "none"
